@@ -12,6 +12,7 @@ pub use access_structure::AccessStructure;
 pub use attribute::{AttributeStatus, EncryptionHint, QualifiedAttribute};
 pub use dimension::{Attribute, Dimension};
 pub use rights::Right;
+pub(crate) use rights::read_vec_checked;
 #[cfg(any(test, feature = "test-utils"))]
 pub use tests::gen_structure;
 
